@@ -99,7 +99,7 @@ def acts(ops, maxt=1):
 def slices(tier):
     """(name, cfg kwargs) of the graphs that are replayed on the real code"""
     if tier == "thorough":
-        return [("grow", dict(ops="OpsGrow", pool="Pool3x", maxc=3)),
+        return [("grow", dict(ops="OpsGrow", pool="Pool3x0", maxc=3)),
                 ("iter", dict(ops="OpsIter", pool="Pool2", it="It3", maxc=3, maxt=0)),
                 ("iter3", dict(ops="OpsIter", pool="Pool3", it="It2", maxc=3, maxt=0)),
                 ("held", dict(ops="OpsIter", pool="Pool2", it="It1", maxc=3, maxt=2)),
@@ -108,14 +108,14 @@ def slices(tier):
                 ("view3", dict(ops="OpsView", pool="Pool2", maxc=3, maxt=2)),
                 ("view1", dict(ops="OpsView", pool="Pool2", maxc=1, maxt=3, rots="Rots2", vecs="Vecs2", facs="Facs2", ws="Ws2")),
                 ("copy", dict(ops="OpsCopy", pool="Pool2", maxc=2, maxt=2)),
-                ("io", dict(ops="OpsIO", pool="Pool2x", maxc=3))]
-    return [("grow", dict(ops="OpsGrow", pool="Pool2x", maxc=3)),
+                ("io", dict(ops="OpsIO", pool="Pool2x0", maxc=3))]
+    return [("grow", dict(ops="OpsGrow", pool="Pool2x0", maxc=3)),
             ("iter", dict(ops="OpsIter", pool="Pool2", it="It2", maxc=3, maxt=0)),
             ("held", dict(ops="OpsIter", pool="Pool2", it="It1", maxc=3, maxt=1)),
             ("live", dict(ops="OpsLive", pool="Pool2", maxc=3, maxt=1)),
             ("view", dict(ops="OpsView", pool="Pool2", maxc=2, maxt=2)),
             ("copy", dict(ops="OpsCopy", pool="Pool2", maxc=1, maxt=2)),
-            ("io", dict(ops="OpsIO", pool="Pool2x", maxc=2))]
+            ("io", dict(ops="OpsIO", pool="Pool2x0", maxc=2))]
 
 
 def mixed(tier):
@@ -158,7 +158,7 @@ def probe_free():
     m2 = {"na": 2, "nb": 1, "g": [[1, 2, -3], [0, 5, 4]], "q": [-250, 375]}
     free = []
     ad = EnsembleAdapter(CUNIT)
-    ad.apply({"act": "newlist", "ms": [m1]})
+    ad.apply({"act": "newlist", "ms": [m1], "n": 0})
     ad.apply({"act": "extens", "how": "other", "o": {"na": 2, "nb": 1, "C": [m2["g"]], "Q": [m2["q"]], "W": [250]}})
     o = ad.observe()
     q = o["Q"][1] if len(o["Q"]) > 1 else None
@@ -166,11 +166,11 @@ def probe_free():
     free += {(-250, 375): ["qown"], (0, 0): ["qzero"]}.get(tuple(q) if q else None, ["qown", "qzero"])
     free += {250: ["wsrc"], 1000: ["wone"]}.get(w, ["wsrc", "wone"])
     ad = EnsembleAdapter(CUNIT)
-    ad.apply({"act": "newatoms", "k": 0, "C": [], "Q": []})
+    ad.apply({"act": "newatoms", "form": "list", "k": 0, "a": 0, "C": [], "Q": []})
     out = ad.apply({"act": "append", "m": m1})
     free += ["refuse"] if out["out"] == "error" else (["adopt"] if ad.observe()["na"] == 2 else ["adopt", "refuse"])
     ad = EnsembleAdapter(CUNIT)
-    ad.apply({"act": "newlist", "ms": [m1]})
+    ad.apply({"act": "newlist", "ms": [m1], "n": 0})
     free += ["ext0ok"] if ad.apply({"act": "extlist", "ms": []})["out"] == "ok" else ["ext0err"]
     return tuple(free)
 
